@@ -3,6 +3,7 @@
 # ./check selftest sensitivity [names...]    - every mutants/*.patch: scratch copy of /repo, patched, quick check must report a VIOLATION
 # ./check selftest seeded [names...]         - the same for seeded/<name>/patch.diff (changes contributed by independent sub-agents)
 # ./check selftest baseline [names...]       - (slow) each mutant / seeded change still passes the repository's own test suite
+# ./check selftest valgrind [ids...]         - plain (unsanitised) harness binaries under valgrind memcheck over a few hundred plans
 set -u
 ROOT="$(cd "$(dirname "${BASH_SOURCE[0]}")/.." && pwd)"
 cd "$ROOT" || exit 2
@@ -52,5 +53,15 @@ sensitivity|seeded|baseline)
     done
     echo "selftest $MODE: $((TOTAL-MISSED)) of $TOTAL ok"
     [ $MISSED -eq 0 ] ;;
-*) sed -n 2,5p "$0"; exit 2 ;;
+valgrind)
+    # uninitialised-value and addressing errors that ASan with pattern-initialised locals cannot see: plain binaries under valgrind
+    IDS="${*:-$ALL_IDS}"; N="${VG_N:-150}"; BAD=0
+    make -s -C "$ROOT" -j16 PLAIN=1 BUILD="$ROOT/build/plain" setup > "$ROOT/build/plain.make.log" 2>&1 || { tail -5 "$ROOT/build/plain.make.log"; exit 2; }
+    for id in $IDS; do
+        B="$ROOT/build/plain/bin/$(harness_of "$id")"
+        n=$N; [ "$id" = C07 ] && n=$((N/10)); [ "$id" = C11 ] && n=$((N/3))
+        if valgrind -q --error-exitcode=9 --track-origins=no "$B" --prop "$id" --det "$n" > /dev/null 2> "$ROOT/build/plain/vg.$id.log"; then echo "valgrind $id: $n plans clean"; else echo "valgrind FAIL $id"; head -20 "$ROOT/build/plain/vg.$id.log"; BAD=1; fi
+    done
+    exit $BAD ;;
+*) sed -n 2,6p "$0"; exit 2 ;;
 esac
